@@ -136,111 +136,6 @@ theorem numberLit_shape {s l : Bytes} (h : numberLit s = .ok l) : NumShape l := 
     · cases h
 
 
-/-! ### float literals -/
-
-theorem zeros_digits (n : Nat) : AllDigits (zeros n) := by
-  intro c hc
-  simp [zeros] at hc
-  rw [hc.2]; decide
-
-theorem AllDigits.append {a b : Bytes} (ha : AllDigits a) (hb : AllDigits b) : AllDigits (a ++ b) := by
-  intro c hc
-  rcases List.mem_append.mp hc with h | h
-  · exact ha c h
-  · exact hb c h
-
-theorem AllDigits.take {a : Bytes} (ha : AllDigits a) (n : Nat) : AllDigits (a.take n) :=
-  fun c hc => ha c (List.mem_of_mem_take hc)
-
-theorem AllDigits.drop {a : Bytes} (ha : AllDigits a) (n : Nat) : AllDigits (a.drop n) :=
-  fun c hc => ha c (List.mem_of_mem_drop hc)
-
-theorem layout_shape {ds : Bytes} (h : DigitsLit ds) (x : Int) : NumShape0 (layout ds x) := by
-  obtain ⟨hall, c, t, hc, hz⟩ := h
-  subst hc
-  have hc : isDigit c = true := hall c (by simp)
-  have ht : AllDigits t := fun y hy => hall y (by simp [hy])
-  unfold layout
-  split
-  · -- exponent notation
-    have hexp : ExpPart (101 :: ((if x < 0 then [45] else [43]) ++ natDec x.natAbs)) := by
-      right
-      refine ⟨101, _, natDec x.natAbs, rfl, Or.inl rfl, ?_, ?_, (natDec_lit _).1⟩
-      · split <;> simp
-      · obtain ⟨_, c', t', h', _⟩ := natDec_lit x.natAbs
-        rw [h']; simp
-    cases t with
-    | nil =>
-      refine ⟨[c], [], _, ?_, ?_, Or.inl rfl, hexp⟩
-      · simp
-      · exact (show DigitsLit [c] from ⟨hall, c, [], rfl, fun _ => rfl⟩).intPart
-    | cons d r =>
-      have h48 : c ≠ 48 := fun hh => by have := hz hh; cases this
-      refine ⟨[c], 46 :: d :: r, _, ?_, ?_, ?_, hexp⟩
-      · simp
-      · right; exact ⟨c, [], rfl, hc, h48, by intro y hy; cases hy⟩
-      · right; exact ⟨d :: r, rfl, by simp, ht⟩
-  · split
-    · -- plain notation, x ≥ 0
-      by_cases hlen : (c :: t).length ≤ x.toNat + 1
-      · by_cases h0 : (c :: t == [48]) = true
-        · simp only [hlen, h0, ↓reduceIte]
-          exact ⟨[48], [], [], rfl, Or.inl rfl, Or.inl rfl, Or.inl rfl⟩
-        · simp only [hlen, h0, ↓reduceIte]
-          have h48 : c ≠ 48 := by
-            intro hh
-            have := hz hh
-            subst this; subst hh
-            exact h0 (by decide)
-          refine ⟨(c :: t) ++ zeros (x.toNat + 1 - (c :: t).length), [], [], by simp, ?_, Or.inl rfl, Or.inl rfl⟩
-          right
-          exact ⟨c, t ++ zeros (x.toNat + 1 - (c :: t).length), by simp, hc, h48, ht.append (zeros_digits _)⟩
-      · simp only [hlen, ↓reduceIte]
-        -- the integer part is a proper, nonempty prefix
-        have hlen' : x.toNat + 1 < t.length + 1 := by simpa using hlen
-        have htne : t ≠ [] := by intro hh; subst hh; simp at hlen'
-        have h48 : c ≠ 48 := fun hh => htne (hz hh)
-        refine ⟨(c :: t).take (x.toNat + 1), 46 :: (c :: t).drop (x.toNat + 1), [], by simp, ?_, ?_, Or.inl rfl⟩
-        · right
-          refine ⟨c, t.take x.toNat, by simp [List.take], hc, h48, ht.take _⟩
-        · right
-          refine ⟨_, rfl, ?_, hall.drop _⟩
-          intro hh
-          have := congrArg List.length hh
-          simp only [List.length_drop, List.length_cons, List.length_nil] at this
-          omega
-    · -- plain notation, x < 0
-      refine ⟨[48], 46 :: (zeros ((-x).toNat - 1) ++ c :: t), [], by simp, Or.inl rfl, ?_, Or.inl rfl⟩
-      right
-      exact ⟨_, rfl, by simp, (zeros_digits _).append hall⟩
-
-theorem fmtClass_shape {cl : FClass} {k : Nat} {l : Bytes} (h : fmtClass cl k = some l) : NumShape l := by
-  unfold fmtClass at h
-  split at h
-  · cases h
-  · rename_i neg
-    injection h with h; subst h
-    cases neg
-    · exact ⟨[], [48], [], [], rfl, Or.inl rfl, Or.inl rfl, Or.inl rfl, Or.inl rfl⟩
-    · exact ⟨[45], [48], [], [], rfl, Or.inr rfl, Or.inl rfl, Or.inl rfl, Or.inl rfl⟩
-  · rename_i neg b
-    have hl : DigitsLit (shortestDigits b k).1 := by
-      unfold shortestDigits
-      exact natDec_lit _
-    cases hsd : shortestDigits b k with
-    | mk ds x =>
-      rw [hsd] at hl h
-      simp only at hl h
-      injection h with h; subst h
-      have := layout_shape hl x
-      cases neg
-      · exact this.pos
-      · exact this.neg
-
-theorem fmtF64_shape {b : UInt64} {l : Bytes} (h : fmtF64 b = some l) : NumShape l := fmtClass_shape h
-theorem fmtF32_shape {b : UInt32} {l : Bytes} (h : fmtF32 b = some l) : NumShape l := fmtClass_shape h
-
-
 /-! ### string bodies -/
 
 /-- decidable description of an output chunk of the string writer: one plain byte, a two-byte escape,
